@@ -256,6 +256,16 @@ impl Epoch {
         (days.rem_euclid(DAYS_PER_WEEK_I64) as u8).into()
     }
 
+    /// Returns the weekday of the Gregorian date of this epoch in its own time scale, i.e. of the date it is printed with.
+    pub(crate) fn gregorian_weekday(&self) -> Weekday {
+        // 1900-01-01 was a Monday: count the whole days since then in the time scale of this epoch.
+        let (centuries, nanoseconds) =
+            (self.duration + self.time_scale.gregorian_epoch_offset()).to_parts();
+        let days = i64::from(centuries) * DAYS_PER_CENTURY_I64
+            + (nanoseconds / NANOSECONDS_PER_DAY) as i64;
+        (days.rem_euclid(DAYS_PER_WEEK_I64) as u8).into()
+    }
+
     #[must_use]
     /// Returns weekday (uses the TAI representation for this calculation).
     pub fn weekday(&self) -> Weekday {
